@@ -1021,6 +1021,9 @@ func (h *History) finalChecks() {
 			return
 		}
 		h.readCheck(len(h.Plan.Ops), s, FullRange)
+		if h.stop {
+			return
+		}
 	}
 	if h.Pr.CheckListing && !run.Failed() {
 		h.listingCheck(len(h.Plan.Ops))
